@@ -8,7 +8,7 @@ CHECKS = {
  "C02": ("bounded symbolic execution (z3) of _find_prototypes/fit; MST cycle-property and Kruskal-uniqueness oracles",
          "for every symmetric weight matrix (all tie patterns, and the all-distinct case) and label pattern with n<=4 / n<=5", "4 C02"),
  "C03": ("bounded symbolic execution (z3) of fit followed by predict on symbolic query distance vectors; exhaustive-minimiser oracle",
-         "end-to-end: every training set with n<=4 / n<=5 and batches of 1-2 queries, both weight branches, supervised and semi-supervised; state-injected: arbitrary forests with n<=5 / n<=7 nodes", "4 C03"),
+         "end-to-end: every training set with n<=4 / n<=5 and batches of 1-2 queries, both weight branches, supervised and semi-supervised; state-injected: arbitrary forests with n<=5 / n<=6 nodes", "4 C03"),
  "C04": ("bounded symbolic execution (z3) of fit+predict(X_train) under tie-free weights; KNN part: symbolic clustering with force_prototype",
          "supervised: n<=4 / n<=5; KNN-supervised: forced clustering from an arbitrary clean graph state (n<=4 / n<=5) and the real fit end to end on a symbolic distance table (n=3 / n<=4)", "4 C04"),
  "C05": ("bounded symbolic execution (z3) of the real Heap: inductive step from an arbitrary invariant-satisfying symbolic state per operation, base case, and bounded operation histories with a ghost set",
